@@ -1,7 +1,9 @@
 ---------------------------- MODULE TracePostAgg ----------------------------
 (***************************************************************************)
 (* Contract monitor for post-aggregation clauses (C07) on traces of the real *)
-(* engine: one event-time tumbling batch (rows 1..n, closed by a flush row)  *)
+(* engine: event-time tumbling batches (rows 1..n closed by a flush row, or  *)
+(* several consecutive batches: bounds = cumulative row counts, every batch   *)
+(* judged from ITS OWN rows alone - nothing is carried from batch to batch)  *)
 (* grouped by column g.  reset line:                                         *)
 (*   aggdefs = <<[key, fn, arg]>>   aggregates referenced anywhere           *)
 (*   sel     = <<[al, e]>>          select items: ASTs over aggregate keys   *)
@@ -14,14 +16,18 @@ EXTENDS Agg, Expr, Json, IOUtils
 
 CONSTANT Dev
 Trace == ndJsonDeserialize(IOEnv.TRACE_FILE)
-VARIABLES l, cfg, rows, nout, dead
+VARIABLES l, cfg, rows, nout, dead      \* nout = number of batches settled so far (delivered, or passed over because HAVING kept nothing)
 vars == <<l, cfg, rows, nout, dead>>
 
 GKey(row) == KeyOf(Col(row, "g"))
-Groups == {GKey(rows[i]) : i \in 1..cfg.n}
-Idx(k) == LET S == {i \in 1..cfg.n : GKey(rows[i]) = k} IN
-          [j \in 1..Cardinality(S) |-> CHOOSE i \in S : Cardinality({m \in S : m < i}) = j - 1]
-GVal(k) == Col(rows[Idx(k)[1]], "g")
+Bounds == IF "bounds" \in DOMAIN cfg THEN cfg.bounds ELSE <<cfg.n>>
+NB == Len(Bounds)
+Lo(b) == IF b = 1 THEN 1 ELSE Bounds[b - 1] + 1
+Hi(b) == Bounds[b]
+Groups(b) == {GKey(rows[i]) : i \in Lo(b)..Hi(b)}
+Idx(b, k) == LET S == {i \in Lo(b)..Hi(b) : GKey(rows[i]) = k} IN
+             [j \in 1..Cardinality(S) |-> CHOOSE i \in S : Cardinality({m \in S : m < i}) = j - 1]
+GVal(b, k) == Col(rows[Idx(b, k)[1]], "g")
 
 \* aggregate value of one definition over the group's rows, as a reference value
 AggVal(d, ix) ==
@@ -40,20 +46,23 @@ AggVal(d, ix) ==
                               IF ps = <<>> THEN NullV ELSE FromSV(rows[ps[Len(ps)]][d.arg])
 Keys == {cfg.aggdefs[i].key : i \in 1..Len(cfg.aggdefs)}
 DefOf(key) == cfg.aggdefs[CHOOSE i \in 1..Len(cfg.aggdefs) : cfg.aggdefs[i].key = key]
-AggEnv(k) == [key \in Keys |-> AggVal(DefOf(key), Idx(k))]
+AggEnv(b, k) == [key \in Keys |-> AggVal(DefOf(key), Idx(b, k))]
 Aliases == {cfg.sel[i].al : i \in 1..Len(cfg.sel)}
 ItemOf(al) == cfg.sel[CHOOSE i \in 1..Len(cfg.sel) : cfg.sel[i].al = al]
 \* projected reference row of group k: alias -> value (evaluated over the aggregate environment)
-Proj(k) == [al \in Aliases |-> Eval(ItemOf(al).e, AggEnv(k))]
+Proj(b, k) == [al \in Aliases |-> Eval(ItemOf(al).e, AggEnv(b, k))]
 \* HAVING sees aggregates and aliases
-FullEnv(k) == [x \in Keys \cup Aliases |-> IF x \in Keys THEN AggEnv(k)[x] ELSE Proj(k)[x]]
-Keeps(k) == "having" \notin DOMAIN cfg \/ IsTrue(Eval(cfg.having, FullEnv(k)))
-Survivors == {k \in Groups : Keeps(k)}
+FullEnv(b, k) == [x \in Keys \cup Aliases |-> IF x \in Keys THEN AggEnv(b, k)[x] ELSE Proj(b, k)[x]]
+Keeps(b, k) == "having" \notin DOMAIN cfg \/ IsTrue(Eval(cfg.having, FullEnv(b, k)))
+Survivors(b) == {k \in Groups(b) : Keeps(b, k)}
+\* the batch a delivery belongs to: the first complete batch not yet settled in which HAVING keeps something (batches are delivered in order)
+Cand == {b \in (nout + 1)..NB : Len(rows) > Hi(b) /\ Survivors(b) # {}}
+Cur == CHOOSE b \in Cand : \A c \in Cand : b <= c
 
 \* delivered row r shows group k
-RowIs(r, k) ==
-  /\ (cfg.gsel = 1 => ("g" \in DOMAIN r /\ Same(r.g, GVal(k))))
-  /\ \A al \in Aliases : Bad(Proj(k)[al]) \/ (al \in DOMAIN r /\ Matches(r[al], Proj(k)[al]))
+RowIs(r, b, k) ==
+  /\ (cfg.gsel = 1 => ("g" \in DOMAIN r /\ Same(r.g, GVal(b, k))))
+  /\ \A al \in Aliases : Bad(Proj(b, k)[al]) \/ (al \in DOMAIN r /\ Matches(r[al], Proj(b, k)[al]))
 \* the engine also reports the GROUP BY column when it is not selected; only HAVING helpers and other extras are "hidden" columns
 Visible == Aliases \cup {"g", "window_id"}
 
@@ -67,11 +76,11 @@ Before(a, b, i) ==     \* a may precede b w.r.t. order keys i..
 Sorted(rs) == \A i \in 1..(Len(rs) - 1) : Before(rs[i], rs[i + 1], 1)
 
 OutCode(e) ==
-  LET rs == e.rows  S == Survivors IN
-  IF nout > 0 THEN "unexpected_delivery"
-  ELSE IF \E i \in 1..Len(rs) : \E c \in DOMAIN rs[i] : c \notin Visible THEN "hidden_or_extra_column_delivered"
-  ELSE IF \E i \in 1..Len(rs) : ~\E k \in Groups : RowIs(rs[i], k) THEN "row_matches_no_group"
-  ELSE IF \E i \in 1..Len(rs) : ~\E k \in S : RowIs(rs[i], k) THEN "having_kept_a_rejected_group"
+  IF Cand = {} THEN "unexpected_delivery" ELSE
+  LET rs == e.rows  b == Cur  S == Survivors(b) IN
+  IF \E i \in 1..Len(rs) : \E c \in DOMAIN rs[i] : c \notin Visible THEN "hidden_or_extra_column_delivered"
+  ELSE IF \E i \in 1..Len(rs) : ~\E k \in Groups(b) : RowIs(rs[i], b, k) THEN "row_matches_no_group"
+  ELSE IF \E i \in 1..Len(rs) : ~\E k \in S : RowIs(rs[i], b, k) THEN "having_kept_a_rejected_group"
   ELSE IF cfg.distinct = 0 /\ cfg.gsel = 1 /\ \E i, j \in 1..Len(rs) : i # j /\ Same(rs[i].g, rs[j].g) THEN "group_delivered_twice"
   ELSE IF cfg.distinct = 1 /\ \E i, j \in 1..Len(rs) : i # j /\ \A c \in DOMAIN rs[i] \ {"window_id"} : c \in DOMAIN rs[j] /\ Same(rs[i][c], rs[j][c]) THEN "duplicate_row_despite_distinct"
   ELSE IF Len(cfg.order) > 0 /\ ~Sorted(rs) THEN "not_sorted_by_order_by"
@@ -80,12 +89,12 @@ OutCode(e) ==
   ELSE IF cfg.limit > 0 /\ cfg.distinct = 0 /\ Len(rs) # (IF Cardinality(S) < cfg.limit THEN Cardinality(S) ELSE cfg.limit) THEN "wrong_row_count_under_limit"
   \* LIMIT keeps the FIRST n of the order: no surviving group outside the delivery may sort strictly before a delivered one
   ELSE IF cfg.limit > 0 /\ Len(cfg.order) > 0 /\ cfg.distinct = 0 /\ cfg.gsel = 1 /\
-          \E k \in S : (~\E i \in 1..Len(rs) : RowIs(rs[i], k)) /\
-                       \E i \in 1..Len(rs) : LET o == cfg.order[1]  pv == Proj(k)[o.al] IN
+          \E k \in S : (~\E i \in 1..Len(rs) : RowIs(rs[i], b, k)) /\
+                       \E i \in 1..Len(rs) : LET o == cfg.order[1]  pv == Proj(b, k)[o.al] IN
                             pv.k = "rat" /\ rs[i][o.al].k = "num" /\
                             (IF o.desc = 1 THEN pv.n * Scale > rs[i][o.al].v * pv.d + pv.d ELSE pv.n * Scale + pv.d < rs[i][o.al].v * pv.d)
        THEN "limit_did_not_keep_the_first_rows"
-  ELSE IF cfg.distinct = 1 /\ cfg.limit = 0 /\ (\E k \in S : ~(\E i \in 1..Len(rs) : RowIs(rs[i], k))) THEN "surviving_group_missing"
+  ELSE IF cfg.distinct = 1 /\ cfg.limit = 0 /\ (\E k \in S : ~(\E i \in 1..Len(rs) : RowIs(rs[i], b, k))) THEN "surviving_group_missing"
   ELSE ""
 
 Reject(code) == /\ PrintT(<<"REJECT", cfg.tr, l, code>>) /\ dead' = TRUE
@@ -97,11 +106,11 @@ Next ==
      ELSE IF dead THEN UNCHANGED <<cfg, rows, nout, dead>>
      ELSE IF e.e = "in" THEN rows' = Append(rows, e.row) /\ UNCHANGED <<cfg, nout, dead>>
      ELSE IF e.e = "out" THEN
-        LET c == IF Len(rows) < cfg.n THEN "delivery_before_batch_complete" ELSE OutCode(e) IN
-        IF c = "" THEN nout' = nout + 1 /\ UNCHANGED <<cfg, rows, dead>>
+        LET c == IF Len(rows) < Hi(1) THEN "delivery_before_batch_complete" ELSE OutCode(e) IN
+        IF c = "" THEN nout' = Cur /\ UNCHANGED <<cfg, rows, dead>>
         ELSE Reject(c) /\ UNCHANGED <<cfg, rows, nout>>
      ELSE IF e.e = "quiesce" THEN
-        /\ IF nout = 0 /\ Len(rows) > cfg.n /\ Survivors # {} THEN Reject("missing_delivery") ELSE UNCHANGED dead
+        /\ IF Cand # {} THEN Reject("missing_delivery") ELSE UNCHANGED dead
         /\ UNCHANGED <<cfg, rows, nout>>
      ELSE IF e.e \in {"execerr", "panic"} THEN Reject("engine_" \o e.e) /\ UNCHANGED <<cfg, rows, nout>>
      ELSE UNCHANGED <<cfg, rows, nout, dead>>
